@@ -21,9 +21,9 @@
 (* or removes replacements and advances the clock between any two of them; *)
 (* Restart wipes all in-memory state between any two of them.              *)
 (*                                                                         *)
-(* CodeMode = "code": the deferred wrap in waitOrTerminate declares the    *)
+(* CodeMode = "wrapAlways" (queue.go before fix 43007e763, F-C08-1): the    *)
 (* command timed out whenever the retry window has passed, even when the   *)
-(* deletes just succeeded (queue.go as it is).  CodeMode = "fixed": only   *)
+(* deletes just succeeded.  CodeMode = "code" (queue.go as it is now): only *)
 (* an unfinished pass can time out (what the statement wants).             *)
 (***************************************************************************)
 EXTENDS OrchestrationGuards, Json
@@ -32,7 +32,8 @@ CONSTANTS Nodes, Cmds, MaxRepl,
           T, MaxNow,               \* retry window and clock bound in logical units
           MaxFaults, MaxRestarts,
           DelFaults,               \* BOOLEAN: candidate deletes may fail (persistently, i.e. beyond the client's retries)
-          CodeMode,                \* "code" | "fixed"
+          CodeMode,                \* "code" (as it is now) | "wrapAlways" (before the fix of F-C08-1; TLC must reject it)
+          MaxCandVanish,           \* how many candidates may disappear (Node + NodeClaim, from the API and the cluster state)
           Weak,                    \* "none" | a spec mutation that TLC must reject
           Serial,                   \* TRUE: controller invocations do not overlap one another (behaviour generator)
           Gen, MaxLen              \* Gen: record the history h (bounded by MaxLen)
@@ -61,7 +62,10 @@ Cmd0 == [pc |-> "none", cs |-> NoneN, cur |-> {}, oi |-> 0, werr |-> FALSE, ds |
          latched |-> {}, startedAt |-> 0]
 G0 == [failure |-> "none", deleted |-> {}, order |-> "-", delOK |-> TRUE, delErr |-> FALSE, everInit |-> {},
        rbFault |-> FALSE, rbOK |-> TRUE, partial |-> FALSE]
-Node0 == [tainted |-> FALSE, reason |-> FALSE, marked |-> FALSE, deleting |-> FALSE]
+Node0 == [tainted |-> FALSE, reason |-> FALSE, marked |-> FALSE, deleting |-> FALSE, gone |-> FALSE]
+GoneN == [tainted |-> FALSE, reason |-> FALSE, marked |-> FALSE, deleting |-> FALSE, gone |-> TRUE]
+\* position of a node in a command's candidate list (UnmarkForDeletion walks the list in order)
+Rank(n) == IF n = "n1" THEN 1 ELSE IF n = "n2" THEN 2 ELSE 3
 Clean0 == [pc |-> "idle", st |-> NoneN]
 
 Init == /\ cands \in {f \in [Cmds -> (SUBSET Nodes) \ {{}}] : "n1" \in f["A"]}
@@ -86,7 +90,7 @@ Others(k) == {Subj(j) : j \in {x \in Cmds \ {k} : InProgress(x)}}
 \* ------------------------------------------------------------------ the disruption controller computes a command
 Build(k) ==
     /\ cmd[k].pc = "none" /\ ~CtrlBusy /\ MayStart
-    /\ \A n \in cands[k] : ~node[n].marked /\ ~node[n].deleting /\ qmap[n] = "-"
+    /\ \A n \in cands[k] : ~node[n].marked /\ ~node[n].deleting /\ ~node[n].gone /\ qmap[n] = "-"
     /\ cmd' = [cmd EXCEPT ![k].pc = "idle"]
     /\ UNCHANGED <<cands, need, rs, node, qmap, g, clean, now, faults, restarts>>
     /\ Hist(Ev("Build", k, "-", "ok"))
@@ -108,14 +112,14 @@ Begin(k) ==
 Taint(k, n, f) ==
     /\ cmd[k].pc = "mark" /\ cmd[k].cs[n] = "todo" /\ FaultOK(f) /\ Charge(f)
     /\ cmd' = [cmd EXCEPT ![k].cs[n] = IF f = "ok" THEN "tainted" ELSE "err"]
-    /\ node' = IF f = "ok" THEN [node EXCEPT ![n].tainted = TRUE] ELSE node
+    /\ node' = IF f = "ok" /\ ~node[n].gone THEN [node EXCEPT ![n].tainted = TRUE] ELSE node
     /\ UNCHANGED <<cands, need, rs, qmap, g, clean, now, restarts>>
     /\ Hist(Ev("Taint", k, n, f))
 
 SetReason(k, n, f) ==
     /\ cmd[k].pc = "mark" /\ cmd[k].cs[n] = "tainted" /\ FaultOK(f) /\ Charge(f)
     /\ cmd' = [cmd EXCEPT ![k].cs[n] = IF f = "ok" THEN "ok" ELSE "err"]
-    /\ node' = IF f = "ok" THEN [node EXCEPT ![n].reason = TRUE] ELSE node
+    /\ node' = IF f = "ok" /\ ~node[n].gone THEN [node EXCEPT ![n].reason = TRUE] ELSE node
     /\ UNCHANGED <<cands, need, rs, qmap, g, clean, now, restarts>>
     /\ Hist(Ev("SetReason", k, n, f))
 
@@ -146,7 +150,7 @@ EndCreate(k) ==
 
 Mark(k) ==
     /\ cmd[k].pc = "markdel"
-    /\ node' = [n \in Nodes |-> IF n \in cmd[k].cur THEN [node[n] EXCEPT !.marked = TRUE] ELSE node[n]]
+    /\ node' = [n \in Nodes |-> IF n \in cmd[k].cur /\ ~node[n].gone THEN [node[n] EXCEPT !.marked = TRUE] ELSE node[n]]
     /\ cmd' = [cmd EXCEPT ![k].pc = AfterMarkDel]
     /\ UNCHANGED <<cands, need, rs, qmap, g, clean, now, faults, restarts>>
     /\ Hist(Ev("Mark", k, "-", "ok"))
@@ -169,7 +173,7 @@ QBegin(k) ==
 \* the pass returns `kind` (nil | rec(overable) | unrec(overable)); the deferred wrap turns it into a timeout
 Ret(k, kind, why) ==
     LET timedOut == now - cmd[k].startedAt > T
-        wrap == timedOut /\ (CodeMode = "code" \/ kind # "nil")
+        wrap == timedOut /\ (CodeMode = "wrapAlways" \/ kind # "nil")
         final == IF kind = "unrec" \/ wrap THEN "unrec" ELSE kind
         cause == IF kind = "unrec" THEN why ELSE "timeout" IN
     /\ cmd' = [cmd EXCEPT ![k].pc = IF final = "nil" THEN "succeeded" ELSE IF final = "rec" THEN "queued" ELSE "rb",
@@ -210,8 +214,9 @@ EndObserve(k) ==
 DeleteCand(k, n, f) ==
     /\ cmd[k].pc = "del" /\ cmd[k].ds[n] = "todo" /\ FaultOK(f) /\ Charge(f) /\ (f = "fail" => DelFaults)
     /\ cmd' = [cmd EXCEPT ![k].ds[n] = IF f = "ok" THEN "done" ELSE "err"]
-    /\ node' = IF f = "ok" THEN [node EXCEPT ![n].deleting = TRUE] ELSE node
-    /\ g' = IF f = "ok"
+    /\ node' = IF f = "ok" /\ ~node[n].gone THEN [node EXCEPT ![n].deleting = TRUE] ELSE node
+    /\ g' = IF f = "ok" /\ node[n].gone THEN g
+            ELSE IF f = "ok"
             THEN [g EXCEPT ![k].deleted = @ \cup {n},
                            ![k].order = IF g[k].failure # "none" /\ @ = "-" THEN "fail-first" ELSE @,
                            ![k].delOK = @ /\ G_C08_DeleteAfterAllInitialized(need[k], 1..need[k], Created(k), g[k].everInit)]
@@ -244,15 +249,16 @@ ClearReason(k, n, f) ==
 
 Complete(k) ==
     /\ cmd[k].pc = "rb" /\ \A n \in cmd[k].cur : cmd[k].rb[n] = "d"
-    /\ node' = [n \in Nodes |-> IF n \in cmd[k].cur /\ Weak # "noUnmark" THEN [node[n] EXCEPT !.marked = FALSE] ELSE node[n]]
+    /\ LET reached(n) == Weak # "unmarkStopsAtMissing" \/ ~\E m \in cmd[k].cur : node[m].gone /\ Rank(m) < Rank(n) IN
+       node' = [n \in Nodes |-> IF n \in cmd[k].cur /\ Weak # "noUnmark" /\ reached(n) THEN [node[n] EXCEPT !.marked = FALSE] ELSE node[n]]
     /\ qmap' = [n \in Nodes |-> IF n \in cmd[k].cur THEN "-" ELSE qmap[n]]
     /\ cmd' = [cmd EXCEPT ![k].pc = "failed"]
-    /\ g' = [g EXCEPT ![k].rbOK = g[k].rbFault \/ Live_C08_RolledBack({node'[n] : n \in {m \in cmd[k].cur : ~node[m].deleting}})]
+    /\ g' = [g EXCEPT ![k].rbOK = g[k].rbFault \/ Live_C08_RolledBack({node'[n] : n \in {m \in cmd[k].cur : ~node[m].deleting /\ ~node[m].gone}})]
     /\ UNCHANGED <<cands, need, rs, clean, now, faults, restarts>>
     /\ Hist(Ev("Complete", k, "-", "ok"))
 
 \* ------------------------------------------------------------------ Controller.Reconcile: stale taint / condition cleanup
-Outdated(n) == qmap[n] = "-" /\ ~node[n].marked /\ ~node[n].deleting
+Outdated(n) == qmap[n] = "-" /\ ~node[n].marked /\ ~node[n].deleting /\ ~node[n].gone
 CleanBegin ==
     /\ Weak # "noCleanup"
     /\ clean.pc = "idle" /\ ~CtrlBusy /\ MayStart
@@ -305,6 +311,15 @@ ReplVanish(k, i) ==
     /\ UNCHANGED <<cands, need, cmd, node, qmap, clean, now, faults, restarts>>
     /\ Hist(Ev("ReplVanish", k, ToString(i), "ok"))
 
+\* a candidate of a command in flight disappears: Node and NodeClaim leave the API and the cluster state (the queue's
+\* map keeps its provider id); every later call on it gets NotFound, which Karpenter ignores
+CandVanish(n) ==
+    /\ ~node[n].gone /\ Cardinality({m \in Nodes : node[m].gone}) < MaxCandVanish
+    /\ \E k \in Cmds : InProgress(k) /\ n \in Subj(k)
+    /\ node' = [node EXCEPT ![n] = GoneN]
+    /\ UNCHANGED <<cands, need, cmd, rs, qmap, g, clean, now, faults, restarts>>
+    /\ Hist(Ev("CandVanish", "-", n, "ok"))
+
 Tick == /\ now < MaxNow /\ now' = now + 1
         /\ UNCHANGED <<cands, need, cmd, rs, node, qmap, g, clean, faults, restarts>>
         /\ Hist(Ev("Tick", "-", "-", "ok"))
@@ -330,7 +345,7 @@ CmdStep(k) ==
          \/ \E n \in Nodes : Taint(k, n, f) \/ SetReason(k, n, f) \/ DeleteCand(k, n, f) \/ Untaint(k, n, f) \/ ClearReason(k, n, f)
          \/ \E i \in Idx : CreateRepl(k, i, f)
 CleanStep == CleanBegin \/ CleanMid \/ CleanEnd \/ \E n \in Nodes, f \in {"ok", "fail"} : CleanTaint(n, f) \/ CleanReason(n, f)
-EnvStep == Tick \/ Restart \/ \E k \in Cmds, i \in Idx : ReplInit(k, i) \/ ReplVanish(k, i)
+EnvStep == Tick \/ Restart \/ (\E k \in Cmds, i \in Idx : ReplInit(k, i) \/ ReplVanish(k, i)) \/ \E n \in Nodes : CandVanish(n)
 
 \* a plain disjunction of the named actions (TLC reports coverage per action)
 Next == (\E k \in Cmds : CmdStep(k)) \/ CleanStep \/ EnvStep
@@ -346,13 +361,10 @@ TypeOK == /\ \A k \in Cmds : cmd[k].pc \in {"none", "idle", "queued"} \cup Start
 Inv_C08_DeleteAfterAllInitialized == \A k \in Cmds : g[k].delOK
 \* the statement: an action that met a failure (create failed, replacement vanished, timeout) deletes no candidate
 Inv_C08_NoDeleteAfterFailure == \A k \in Cmds : G_C08_NoDeleteAfterFailure(g[k].failure, g[k].deleted)
-\* ... as the code is: the only exception is the known lead (F-C08-1: the deferred wrap declares a timeout after the
-\* deletes were issued) and, with persistently failing deletes, its sibling (F-C08-2: some deletes went through, the
-\* others kept failing until the window closed)
+\* ... as the code is: the only exception is the known non-atomic case with persistently failing deletes (F-C08-2: in the
+\* pass that declared the timeout a candidate delete failed while others had gone through).  Before fix 43007e763
+\* (CodeMode = "wrapAlways", F-C08-1) the deferred wrap also declared a timeout after deletes that had all succeeded.
 Inv_C08_NoDeleteAfterFailure_Code ==
-    \A k \in Cmds : (g[k].failure # "none" /\ g[k].deleted # {}) => (g[k].failure = "timeout" /\ g[k].order = "del-first")
-\* ... with the fix: only the partial-delete case remains (partial: in the pass that declared the timeout a candidate delete failed)
-Inv_C08_NoDeleteAfterFailure_Fixed ==
     \A k \in Cmds : (g[k].failure # "none" /\ g[k].deleted # {}) =>
                        (g[k].failure = "timeout" /\ g[k].order = "del-first" /\ g[k].partial)
 \* a node is the subject of at most one action in progress
@@ -361,7 +373,7 @@ Inv_C08_SingleCommandPerNode == \A k \in Cmds : InProgress(k) => G_C08_SingleCom
 \* whose NodeClaim was not deleted) are back in service
 Quiet == /\ \A k \in Cmds : cmd[k].pc \in {"none", "idle", "queued"} \cup Terminal
          /\ clean.pc = "idle" /\ ~ENABLED CleanBegin
-Free == {n \in Nodes : ~node[n].deleting /\ ~\E k \in Cmds : InProgress(k) /\ n \in Subj(k)}
+Free == {n \in Nodes : ~node[n].deleting /\ ~node[n].gone /\ ~\E k \in Cmds : InProgress(k) /\ n \in Subj(k)}
 Inv_C08_RolledBackWhenQuiet == Quiet => Live_C08_RolledBack({node[n] : n \in Free})
 \* the failed action itself puts its candidates back in service (when no call of its rollback failed)
 Inv_C08_RolledBackByAction == \A k \in Cmds : g[k].rbOK
